@@ -42,9 +42,11 @@ impl ParseTree
 	) -> Self
 	{
 		// For nodes, we want to avoid the realloc at all costs.
-		// TODO so 1 is too small, 2 is very likely true but a bit of a magic number
+		// The worst case is a chain of identifiers `x + x + x`: each `+ x` is
+		// 2 tokens and 8 nodes (5 for the reference, 3 for the operation),
+		// so 4 nodes per token are needed and 2 are not enough.
 		let num_tokens =
-			MAX_PARSE_NODE_CONTEXT + 2 * tokens.base_tokens().len();
+			MAX_PARSE_NODE_CONTEXT + 4 * tokens.base_tokens().len();
 		let nodes = Vec::with_capacity(num_tokens);
 
 		// The caller knows how many declarations there can be.
